@@ -867,6 +867,8 @@ def eval_dyad_reshape(a, b, backend):
         return b  # 0:^x is the identity, also for a character
     j = isinstance(b, str) and not isinstance(b, KGSym)
     b = backend.str_to_chr_arr(b) if j else b
+    if np_backend.isarray(a) and a.ndim == 1 and len(a) == 1 and a[0] > 0:
+        a = int(a[0])  # a vector of n members: the members of "b" are taken as they are ([2]:^[[1 2 3]] --> [[1 2 3] [1 2 3]])
     if np_backend.isarray(a):
         if np_backend.isarray(b):
             y = np_backend.where(a < 0)[0]
@@ -898,7 +900,7 @@ def eval_dyad_reshape(a, b, backend):
             r = b
         elif np_backend.isarray(b):
             if a < b.shape[0]:
-                r = np_backend.resize(b, (a,))
+                r = b[:a]
             else:
                 ns = np_backend.ones(len(b.shape),dtype=int)
                 ns[0] = a // b.shape[0]
